@@ -510,6 +510,30 @@ impl<'a> Gen<'a> {
     fn branch_stmts(&mut self, allow_if: bool, depth: u32) -> Vec<Stmt> {
         let n = if self.k.multi_stmt { 1 + self.rng.usize(3) } else { 1 };
         let mut v: Vec<Stmt> = (0..n).map(|_| self.simple()).collect();
+        // a whole FOR loop inside the clause (NEXT jumps back into the middle of it)
+        if self.k.for_loops && self.k.multi_stmt && self.rng.chance(1, 6) {
+            let free: Vec<&str> = NUM_VARS.iter().copied().filter(|c| !self.open_loops.iter().any(|o| o == c)).collect();
+            if !free.is_empty() {
+                let var = self.rng.pick(&free).to_string();
+                v.push(Stmt::For {
+                    var: var.clone(),
+                    from: Expr::Num(1.0),
+                    to: Expr::Num(1.0 + self.rng.below(3) as f64),
+                    step: None,
+                });
+                if self.rng.chance(2, 3) {
+                    v.push(self.simple());
+                }
+                v.push(Stmt::Next(var));
+            }
+        }
+        // a subroutine call in the middle of the clause (RETURN comes back into it)
+        if self.k.gosub && !self.sub_entries.is_empty() && self.rng.chance(1, 6) {
+            v.push(Stmt::Gosub(u64::MAX));
+            if self.rng.chance(1, 2) {
+                v.push(self.simple());
+            }
+        }
         if allow_if && depth < 2 && self.rng.chance(1, 4) {
             v.push(self.if_stmt(depth + 1));
         }
